@@ -94,9 +94,13 @@ def run_case(S, args, inp, sub, cls, count, via="stdin"):
             # A corrupted length field made the program ask for more than the workload's 2 GiB address-space cap. That is
             # not a verdict on the tree: thorough re-runs the case alone without the cap, quick only counts it.
             S.count("alloc_capped_runs")
-            if S.tier != "thorough":
+            # thorough re-runs a bounded number of them alone and uncapped (each takes seconds and they are serialised)
+            S.params["_uncapped_budget"] = S.params.get("_uncapped_budget", 6 if S.tier == "thorough" else 0)
+            if S.params["_uncapped_budget"] <= 0:
                 S.case(key=digest([args, (inp or b"").hex()[:4000], kind, "capped"]), nontrivial=False)
                 continue
+            S.params["_uncapped_budget"] -= 1
+            S.count("alloc_capped_runs_repeated_uncapped")
             r = type(r)(r.argv, None, b"", b"", timed_out=True)
         if r.timed_out:
             # A corrupted length field can make a dependency allocate gigabytes; under 16-way load that is slow.
